@@ -99,6 +99,8 @@ def build_urls(env, rng, tier: str) -> list[dict]:
         {'url': '/dash/odvod/bbb/bbb_a1.m4a', 'kind': 'odvod', 'mandatory': True},
         {'url': '/dash/odvod/tears/tears_v1.m4v', 'kind': 'odvod', 'mandatory': True},
     ]
+    if getattr(env, 'extra', {}).get('edited'):
+        urls.append({'url': '/dash/odvod/edt/edt_a1.m4a', 'kind': 'odvod', 'mandatory': True, 'blob_path': env.extra['edited']})
     mps = env.extra.get('mps') if hasattr(env, 'extra') else None
     if mps:
         urls.append({'url': mps, 'kind': 'mps-segment'})
@@ -121,6 +123,32 @@ def run_shard(ctx: ShardCtx) -> ShardResult:
             env.extra['mps'] = add_simple_mps(env)
         except ImportError:
             pass
+        # a media file whose track id was edited through the real endpoint: the server rewrites the file (only
+        # the indexed fragments are copied, so the new file is shorter than the upload when bytes lie outside
+        # them: here a trailing mfra box) and stores a new blob row for it
+        edited = None
+        try:
+            from dlv.appenv import FIXTURES
+            from dlv.session import UserSession
+            from dlv.mgmt import Harvest, execute, op_edit_media
+            import struct as _st
+            a1_mfra = (FIXTURES / 'bbb' / 'bbb_a1.mp4').read_bytes() + _st.pack('>I', 24) + b'mfra' + b'\0' * 16
+            spk_e = env.add_stream('edt', title='Edited media', files={'edt_a1': a1_mfra,
+                                                                        'edt_v7': FIXTURES / 'bbb' / 'bbb_v7.mp4'}, copy=True)
+            with env.app.app_context():
+                mfid = env.models.MediaFile.get(name='edt_a1').pk
+            sess = UserSession(env, *env.MEDIA)
+            r_e = execute(sess, Harvest(sess, spk_e), op_edit_media(spk_e, mfid, 9, 'eng'))
+            with env.app.app_context():
+                env.models.db.session.remove()
+                mf = env.models.MediaFile.get(name='edt_a1')
+                path = env.blob_folder / 'edt' / mf.blob.filename
+                if r_e.status_code < 400 and mf.track_id == 9 and path.exists():
+                    edited = str(path)
+                    res.count('edited_media.ready')
+        except Exception as err:
+            res.notes.append(f'edited media not set up: {err!r}')
+        env.extra['edited'] = edited
         reach = Reach([('dashlive.server.requesthandler.base', 'RequestHandlerBase.get_http_range'),
                        ('dashlive.server.requesthandler.media_requests', 'OnDemandMedia.get')])
         client = env.client()
@@ -139,6 +167,9 @@ def run_shard(ctx: ShardCtx) -> ShardResult:
                 key = tuple(target['url'].split('/')[3:5])
                 directory, fname = key[0], key[1].rsplit('.', 1)[0]
                 full = env.stored[(directory, fname)]
+                if target.get('blob_path'):
+                    # a file that was edited through the management page: the representation is the rewritten file
+                    full = open(target['blob_path'], 'rb').read()
             else:
                 r0 = env.get(target['url'], client=client)
                 if r0.status_code != 200:
